@@ -795,3 +795,6 @@ func JSON(v interface{}) string {
 	b, _ := json.Marshal(v)
 	return string(b)
 }
+
+// DeadlineTime returns the unit's soft deadline (zero when none).
+func (r *Rec) DeadlineTime() time.Time { return r.deadline }
